@@ -12,7 +12,6 @@ import (
 	"os"
 	"path"
 	"path/filepath"
-	"regexp"
 	"strconv"
 	"strings"
 
@@ -188,30 +187,11 @@ func readCurrentRegex(filePath string, ruleId string, chainOffset uint8) string 
 
 	lines := bytes.Split(contents, []byte("\n"))
 
-	idRegex := regexp.MustCompile(fmt.Sprintf("id:%s", ruleId))
-	index := 0
-	var line []byte
-	foundRule := false
-	chainCount := uint8(0)
-	for index, line = range lines {
-		if !foundRule && idRegex.Match(line) {
-			foundRule = true
-			if chainOffset == 0 {
-				index--
-				break
-			}
-			continue
-		}
-		if foundRule && regex.SecRuleRegex.Match(line) {
-			chainCount++
-		}
-		if foundRule && chainCount == chainOffset {
-			break
-		}
-	}
-	if !foundRule || chainOffset != chainCount {
+	index, foundRule := findRegexLine(lines, ruleId, chainOffset)
+	if !foundRule {
 		logger.Fatal().Msgf("Failed to find rule %s, chain offset, %d in %s", ruleId, chainOffset, filePath)
 	}
+
 	regexLine := lines[index]
 	found := regex.RuleRxRegex.FindAllStringSubmatch(string(regexLine), -1)
 	if len(found) == 0 {
